@@ -2817,6 +2817,8 @@ class ContractionTree:
         self.surface_order = functools.partial(
             get_with_default, obj=o, default=float("inf")
         )
+        # contractors compiled for ``order="surface_order"`` are now stale
+        self.contraction_cores.clear()
 
     def get_path_surface(self):
         return self.get_path(order=self.surface_order)
